@@ -93,15 +93,22 @@ def bitsOf : Bytes → List Bool
     [b &&& 128 != 0, b &&& 64 != 0, b &&& 32 != 0, b &&& 16 != 0,
      b &&& 8 != 0, b &&& 4 != 0, b &&& 2 != 0, b &&& 1 != 0] ++ bitsOf r
 
-/-- position of `(code, len)` in the Huffman table = the symbol. -/
-def huffFind (tbl : List (Nat × Nat)) (code len : Nat) : Option Nat :=
-  tbl.findIdx? (fun e => e.1 == code && e.2 == len)
+/-- the Huffman table grouped by code length (`HashMap<u8, HashMap<u32, _>>` in the crate):
+entry `len` = the `(code, symbol)` pairs of that length -/
+def huffIndex (tbl : List (Nat × Nat)) : Array (List (Nat × Nat)) :=
+  (Array.range 33).map fun len => (tbl.zipIdx.filter (fun e => e.1.2 == len)).map (fun e => (e.1.1, e.2))
+
+def huffByLen : Array (List (Nat × Nat)) := huffIndex Gen.Hpack.huffman
+
+/-- symbol with code `(code, len)`, if any. -/
+def huffFind (idx : Array (List (Nat × Nat))) (code len : Nat) : Option Nat :=
+  (idx.getD len []).lookup code
 
 def eosCode : Nat × Nat := Gen.Hpack.huffman.getD 256 (0, 0)
 
 /-- the loop of `HuffmanDecoder::decode`: `none` = `EOSInString`; otherwise the decoded bytes
 (reversed) and the leftover `(current, current_len)`. -/
-def huffLoop (tbl : List (Nat × Nat)) : List Bool → (cur len : Nat) → (acc : Bytes) → Option (Bytes × Nat × Nat)
+def huffLoop (tbl : Array (List (Nat × Nat))) : List Bool → (cur len : Nat) → (acc : Bytes) → Option (Bytes × Nat × Nat)
   | [], cur, len, acc => some (acc, cur, len)
   | b :: bs, cur, len, acc =>
     let len := len + 1
@@ -112,7 +119,7 @@ def huffLoop (tbl : List (Nat × Nat)) : List Bool → (cur len : Nat) → (acc 
 
 /-- `HuffmanDecoder::decode` -/
 def huffDecode (buf : Bytes) : Option Bytes :=
-  match huffLoop Gen.Hpack.huffman (bitsOf buf) 0 0 [] with
+  match huffLoop huffByLen (bitsOf buf) 0 0 [] with
   | none => none
   | some (acc, cur, len) =>
     if len > 7 then none                                   -- PaddingTooLarge
